@@ -268,7 +268,8 @@ func RemoveAll(fs FS, path string) error {
 }
 
 func removeAll(fs FS, path string) error {
-	info, err := Stat(fs, path)
+	// A symbolic link is removed, never followed (os.RemoveAll): the link's own info decides, where the file system can tell.
+	info, err := LstatOrStat(fs, path)
 	if err != nil {
 		if errors.Is(err, ErrNotExist) {
 			err = nil
